@@ -373,14 +373,14 @@ class Metadata(CbMixin, ProgMixin):
         copied = []
         for piece_node in self.piece_nodes:
             paths = piece_node.paths
-            if len(paths) == 1 and paths[0].path in copied:
+            if len(paths) == 1 and paths[0].full in copied:
                 self._update()
                 continue
             if piece_node.find_matches(filemap, dest):
                 for pathnode in paths:
-                    if pathnode.path not in copied:
-                        copied.append(pathnode.path)
-                        dest_path = os.path.join(dest, pathnode.path)
+                    if pathnode.full not in copied:
+                        copied.append(pathnode.full)
+                        dest_path = os.path.join(dest, pathnode.full)
                         self._update()
                         self.cb(pathnode.path, dest_path, self.num_pieces)
 
